@@ -505,6 +505,18 @@ func c19Channel(w c19W, b Bounds) *Scenario {
 							}
 							vs.Yield("ret")
 							vs.Note("ret", fmt.Sprint(i), "batch", s, errStr(err))
+						case "batch2", "batch3":
+							specs := []jrpc2.Spec{{Method: "echo", Params: []string{tag + "n"}, Notify: true}, {Method: "echo", Params: []string{tag}}}
+							if op == "batch3" {
+								specs = []jrpc2.Spec{{Method: "echo", Params: []string{tag}}, {Method: "echo", Params: []string{tag + "n"}, Notify: true}, {Method: "echo", Params: []string{tag + "b"}}}
+							}
+							rsps, err := cli.Batch(context.Background(), specs)
+							var parts []string
+							for _, r := range rsps {
+								parts = append(parts, r.ResultString())
+							}
+							vs.Yield("ret")
+							vs.Note("ret", fmt.Sprint(i), op, strings.Join(parts, ","), errStr(err))
 						case "unknown":
 							_, err := cli.Call(context.Background(), "nope", nil)
 							vs.Yield("ret")
@@ -547,6 +559,14 @@ func c19Channel(w c19W, b Bounds) *Scenario {
 					case "call":
 						if e.Arg(2) != tag {
 							v = append(v, Viol{"C19.R6", fmt.Sprintf("call returned %q over the HTTP channel, %q over a direct connection", e.Arg(2), tag)})
+						}
+					case "batch2":
+						if e.Arg(2) != `"`+tag+`"` {
+							v = append(v, Viol{"C19.R6", fmt.Sprintf("batch [note,call] returned %q over the HTTP channel, %q over a direct connection", e.Arg(2), `"`+tag+`"`)})
+						}
+					case "batch3":
+						if want := `"` + tag + `","` + tag + `b"`; e.Arg(2) != want {
+							v = append(v, Viol{"C19.R6", fmt.Sprintf("batch [call,note,call] returned %q over the HTTP channel, %q over a direct connection", e.Arg(2), want)})
 						}
 					case "batch":
 						if e.Arg(2) != `"`+tag+`"` {
@@ -591,6 +611,8 @@ func c19Scenarios(tier string) []*Scenario {
 		c19Channel(c19W{Name: "call", Ops: []string{"call"}}, b1),
 		c19Channel(c19W{Name: "notify", Ops: []string{"notify"}}, b1),
 		c19Channel(c19W{Name: "batch[call,note]", Ops: []string{"batch"}}, b1),
+		c19Channel(c19W{Name: "batch[note,call]", Ops: []string{"batch2"}}, b1),
+		c19Channel(c19W{Name: "batch[call,note,call]", Ops: []string{"batch3"}}, b1),
 		c19Channel(c19W{Name: "unknown method", Ops: []string{"unknown"}}, b1),
 		c19Channel(c19W{Name: "call racing Close", Ops: []string{"call"}, Close: true}, b1),
 		c19Channel(c19W{Name: "notify racing Close", Ops: []string{"notify"}, Close: true}, b1),
